@@ -367,6 +367,60 @@ def run (ctx):
     for nm, node in defs.undefined_names(repo, f):
       ctx.bad('R-DEF', f, "undefined name `%s`" % nm, "NameError on this path", (mod, node), 'D6')
 
+  # reporting a callback's failure cannot itself fail: whatever the handler around the callback calls while composing its message
+  # (inspect.getfile / getsourcelines raise TypeError for builtins and callables without source) sits in a catch-all of its own -
+  # an exception that leaves _try_waiter ends the fixpoint loop of _try_waiters and the remaining ready waiters do not fire
+  g = q.cfg_of(tw)
+  for c in cb:
+    for h in g.handlers_for(c):
+      inner = [n for n in g.nodes if n.ast is not None and n.kind in ('stmt', 'cond') and any(x is n.ast or any(y is n.ast for y in ast.walk(x)) for x in h.ast.body)
+               and any(not (isinstance(cl.func, ast.Attribute) and norm(cl.func.value) in ('log', 'self.log')) and not (isinstance(cl.func, ast.Name) and cl.func.id in ('str', 'repr', 'len')) for cl in q.node_calls(n))]
+      for n in inner:
+        hs2 = [h2 for h2 in g.handlers_for(n) if h2 is not h]
+        total = any(h2.ast.type is None or norm(h2.ast.type) in ('Exception', 'BaseException') for h2 in hs2)
+        ctx.ob('R-CONTAIN', tw, "reporting a failed callback cannot fail (`%s`)" % n.text(40), total, "inside a catch-all of its own" if total else
+               "`%s` runs inside the handler of a failed callback and is covered only by %s: for a callback without retrievable source (a builtin, a partial, a callable object) it raises TypeError out of _try_waiter - "
+               "the waiter loop stops and the other waiters that are ready are not called" % (n.text(50), [norm(h2.ast.type) for h2 in hs2 if h2.ast.type is not None] or 'nothing'), (mod, n.ast), 'D1')
+  # the names a waiter waits for, by evaluation of call_when_ready's normalisation on samples: one name, a set, a list, a tuple - and the
+  # empty ones (the default): nothing to wait for means ready at once, not "waits for the component called []"
+  cg_ = q.cfg_of(cwr); cparam = cwr.params[2] if len(cwr.params) > 2 else 'components'
+  app_ = cg_.nodes_with_call(lambda c: call_name(c) == 'append' and '_waiters' in norm(c.func.value))
+  wrong_ = []; unk_ = 0
+  for smp, want in (('a', ['a']), (['a', 'b'], ['a', 'b']), (('a',), ['a']), ([], []), ((), []), (set(), [])):
+    vals = set()
+    for p_, e_ in q.paths_under(repo, mod, cg_, q.Env({cparam: smp, cwr.params[1]: 'CB', (cwr.params[3] if len(cwr.params) > 3 else 'name'): 'n'}), cg_.entry, app_, core, limit=60, exc=True):
+      v_ = e_.exact.get(cparam, '?')
+      vals.add(repr(v_) if isinstance(v_, list) else '?')
+    if not vals or '?' in vals: unk_ += 1
+    elif vals != {repr(want)}: wrong_.append((smp, sorted(vals), want))
+  if unk_ and not wrong_:
+    ctx.undecided('R-AGREE', cwr, "the names a waiter waits for are the names it was given (samples incl. the empty ones)", "%d of 6 samples not evaluable" % unk_, cwr, 'D2')
+  else:
+    ctx.ob('R-AGREE', cwr, "the names a waiter waits for are the names it was given (samples incl. the empty ones)", not wrong_, "'a', ['a','b'], ('a',), [], (), set()" if not wrong_ else
+           "call_when_ready(cb, %r) waits for %s, expected %s: an empty sequence of names - the default - is itself taken for a component name; hasComponent([]) raises TypeError (unhashable) out of call_when_ready, and () is "
+           "waited for forever - a waiter with nothing to wait for never fires" % wrong_[0], cwr, 'D2')
+  # a component is present or absent, not true or false: register(name) with the component omitted is told from register(name, obj)
+  # by `is None` - an object that happens to be falsy (an empty container-like component) is a component like any other
+  rg_ = q.cfg_of(reg)
+  comp_p = reg.params[2] if len(reg.params) > 2 else 'component'
+  truthy = [n for n in rg_.nodes if n.kind == 'cond' and n.ast is not None and ((isinstance(n.ast, ast.Name) and n.ast.id == comp_p) or (isinstance(n.ast, ast.UnaryOp) and isinstance(n.ast.op, ast.Not) and isinstance(n.ast.operand, ast.Name) and n.ast.operand.id == comp_p))]
+  ctx.ob('R-AGREE', reg, "whether a component was passed is decided by `is None`, not by its truth value", not truthy, "no truth test of `%s`" % comp_p if not truthy else
+         "`%s` treats a falsy component (an object with __len__ 0 or __bool__ False) as 'not given': it is registered under the name of the *name* argument's class ('str') with the name string as the component - "
+         "everything waiting for the intended name never fires" % norm(truthy[0].ast), (mod, truthy[0].ast) if truthy else reg, 'D2')
+  # the set of names a sink waits for is the function's own: the caller's collection is copied before names parsed from the sink's
+  # handlers are added to it (a caller's set changed in place carries one sink's dependencies over to the next sink it is used for)
+  lg_ = q.cfg_of(ltd)
+  cp_ = ltd.params[2] if len(ltd.params) > 2 else 'components'
+  muts_ = lg_.nodes_with_call(lambda c: isinstance(c.func, ast.Attribute) and isinstance(c.func.value, ast.Name) and c.func.value.id == cp_ and c.func.attr in ('add', 'update', 'discard', 'remove', 'clear', 'pop', 'append', 'extend', 'difference_update', 'intersection_update'))
+  rebinds_ = [n for n in lg_.nodes if n.kind == 'stmt' and isinstance(n.ast, ast.Assign) and any(isinstance(t, ast.Name) and t.id == cp_ for t in n.ast.targets)
+              and not (isinstance(n.ast.value, ast.Name) and n.ast.value.id == cp_)]
+  if muts_:
+    unsafe = lg_.reachable(lg_.entry, avoid=rebinds_, exc=False)
+    hit = [m for m in muts_ if m in unsafe]
+    ctx.ob('R-OWN', ltd, "the caller's collection of component names is copied before it is added to", not hit, "every path to `%s` rebinds `%s` to a new set first" % (muts_[0].text(30), cp_) if not hit else
+           "`%s` is reachable without `%s` having been rebound to a fresh set (a caller that passes a set gets it changed in place): a set reused for several sinks accumulates every sink's handler-derived names - "
+           "a later sink waits for components only an earlier one needs and its listeners are wired late or never" % (hit[0].text(40), cp_), (mod, hit[0].ast) if hit else ltd, 'D5')
+
   # every request for a deferral takes out a new one: a deferral handed out twice is released twice - the second release raises, and
   # Up is announced while the second holder is still initialising
   ge_ = mod.classes.get('GoingUpEvent') if 'mod' in dir() else repo.mod('core').classes.get('GoingUpEvent')
